@@ -8,7 +8,7 @@ STD_ASSUME_PURE = [
 PROPS = {
     "C02": {
         "lean_modules": ["RdestModel.Props.C02", "RdestModel.Props.C02Run"],
-        "cases": {"quick": 24, "thorough": 704},
+        "cases": {"quick": 27, "thorough": 702},
         "rule": "cases = end-to-end runs (the count in `cases`) plus 25 manager histories per run: the C12 event histories on the real Session "
                 "(connect, bitfield, have, choke/unchoke, interest, PieceDone, PieceCancel, kill; end game and normal mode), compared step by step "
                 "with the manager model that T2/T3 are proved on, with T3 (the number of pieces not owned never increases) evaluated on the "
